@@ -19,6 +19,7 @@
 import GoBT.Conc.LocksProofs
 import GoBT.Conc.Frames
 import GoBT.Conc.Compile
+import GoBT.Conc.Deadlock
 import GoBT.Gen.Shared
 namespace GoBT.C18
 open GoBT.Conc
@@ -40,6 +41,17 @@ theorem writer_excludes_readers (progs : List (List Act)) (mem0 : Nat × Nat →
     (hg : ∀ p ∈ progs, guardedFrom [] p = true) (m t : Nat)
     (h : ((run (init progs mem0) sched).mu m).writer = some t) : ((run (init progs mem0) sched).mu m).readers = [] :=
   (run_inv _ sched (init_inv progs mem0 hg)).excl m t h
+
+/-- **No deadlock from a global lock order**: if, in addition, every program acquires mutexes in increasing order,
+    then in every reachable state in which some thread still has actions left, some thread can take a step.
+    (`fee_methods_lock_order` below is the regenerated fact that the fee-quote methods do: a FeeQuotes' mutex is
+    always taken before that of a FeeQuote reached through it, never the other way round; number the objects
+    accordingly.) -/
+theorem ordered_programs_deadlock_free (progs : List (List Act)) (mem0 : Nat × Nat → Nat) (sched : List Nat)
+    (hg : ∀ p ∈ progs, guardedFrom [] p = true) (ho : ∀ p ∈ progs, orderedFrom [] p = true)
+    (hwork : ∃ (t : Nat) (th : Thread), (run (init progs mem0) sched).threads[t]? = some th ∧ th.rest ≠ []) :
+    ∃ t, (step (run (init progs mem0) sched) t).isSome = true :=
+  no_deadlock progs mem0 sched hg ho hwork
 
 /-- ✓gen — every method of FeeQuote / FeeQuotes in the current fees.go obeys the discipline -/
 theorem fee_methods_guarded : allGuarded GoBT.Gen.Locks.methods = true := by decide +kernel
